@@ -65,7 +65,7 @@ PROFILE = gen.profile(
 
 
 def cases(tier, seed):
-  n = 110 if tier == "quick" else 1400
+  n = 48 if tier == "quick" else 1400  # every new model costs 10-20 s of kernel specialisation when the cache is cold
   out = []
   for i in range(n):
     sl = i % 4 == 3
